@@ -231,7 +231,11 @@ fn run_part(run: &mut Run) {
             }
         }
     }
-    run.explore("iterator", "RawDataSlice iteration: all sequences of next()/nth(k), k in {0,1,2,7,usize::MAX}, on buffers of length 0..=6 (thorough 9) for 7 raw types x 2 orders", &IM, inits, tier.pick(4, 5));
+    let depth = tier.pick(4, 5);
+    let stats = run.explore("iterator", "RawDataSlice iteration: all sequences of next()/nth(k), k in {0,1,2,7,usize::MAX}, on buffers of length 0..=6 (thorough 9) for 7 raw types x 2 orders", &IM, inits.clone(), depth);
+    if tier.is_thorough() {
+        run.cross_check_stateright("iterator", std::sync::Arc::new(IM), inits, depth, &stats);
+    }
 }
 
 fn main() {
